@@ -16,6 +16,7 @@ import (
 	"encoding/base64"
 	"encoding/xml"
 	"errors"
+	"io"
 	"sync"
 
 	"mellium.im/xmlstream"
@@ -212,8 +213,6 @@ func handlePayload(h *Handler, errResp errorResponder, p dataPayload, e xmlstrea
 		}))
 		return err
 	}
-	conn.seq++
-
 	conn.readLock.Lock()
 	defer conn.readLock.Unlock()
 	var inputErr base64.CorruptInputError
@@ -227,8 +226,9 @@ func handlePayload(h *Handler, errResp errorResponder, p dataPayload, e xmlstrea
 		}))
 		return err
 	}
-	b64Reader := base64.NewDecoder(base64.StdEncoding, bytes.NewReader(p.Data))
-	_, err := conn.readBuf.ReadFrom(b64Reader)
+	// Decode into scratch space first: a refused packet must leave neither
+	// partial data in the read buffer nor a gap in the sequence numbers.
+	decoded, err := io.ReadAll(base64.NewDecoder(base64.StdEncoding, bytes.NewReader(p.Data)))
 	if errors.As(err, &inputErr) {
 		_, err := xmlstream.Copy(e, errResp.Error(stanza.Error{
 			Type:      stanza.Cancel,
@@ -236,6 +236,11 @@ func handlePayload(h *Handler, errResp errorResponder, p dataPayload, e xmlstrea
 		}))
 		return err
 	}
+	if err != nil {
+		return err
+	}
+	conn.seq++
+	_, err = conn.readBuf.Write(decoded)
 	if err != nil {
 		return err
 	}
